@@ -142,6 +142,7 @@ func GenTree(prop string, r *sim.Rand, tier string) sim.Script {
 			s.Observe = "clone"
 		}
 		s.IterAll = r.Chance(1, 3)
+		s.ScribblePaths = r.Chance(1, 2)
 		for i := range s.Ops {
 			if s.Ops[i].K == "merge" && r.Chance(1, 3) {
 				s.Ops[i].N = 1 // if this merge is rejected it is tried again at once
